@@ -231,9 +231,17 @@ func (x *Exec) runLoop(f *frame, L *loop) {
 				break
 			}
 			delete(f.condConst, H)
+			nUnw := len(x.Unwinds)
 			x.runRegion(f, L)
-			if _, isIf := H.Instrs[len(H.Instrs)-1].(*ssa.If); !isIf || !f.condConst[H] {
+			// an iteration counts against the bound unless the whole iteration was decided concretely: the header's
+			// test folded to a constant, no symbolic exit was taken (the back-edge guard is the iteration's guard) and no
+			// loop inside it was cut at its bound (cut paths are dropped, which can make the rest look concrete)
+			_, isIf := H.Instrs[len(H.Instrs)-1].(*ssa.If)
+			if ng := f.pendG[H]; !isIf || !f.condConst[H] || (ng != nil && ng != g) || len(x.Unwinds) > nUnw {
 				symIters++
+			}
+			if x.Trace {
+				fmt.Printf("      loop %s iter=%d symIters=%d bound=%d isIf=%v condConst=%v\n", f.fn.Name(), iter, symIters, bound, isIf, f.condConst[H])
 			}
 		}
 		x.NUnrolled++
